@@ -30,7 +30,7 @@ def log(*a):
 class Build:
     """one overlay + IR for a set of repo packages"""
 
-    def __init__(self, workdir, pkgs, stubs=('display', 'speakers'), extra_overlay=None, extra_harness=None):
+    def __init__(self, workdir, pkgs, stubs=('display', 'speakers'), extra_overlay=None, extra_harness=None, exclude=()):
         self.workdir = workdir
         self.pkgs = list(pkgs)            # e.g. ['timer'] or ['.'] for gameboy itself
         os.makedirs(workdir, exist_ok=True)
@@ -45,7 +45,7 @@ class Build:
             pkdir = os.path.join(REPO, 'gameboy') if pk == '.' else os.path.join(REPO, 'gameboy', pk)
             pkname = 'gameboy' if pk == '.' else os.path.basename(pk)
             hdir = os.path.join(VERIF, 'harness', 'gameboy' if pk == '.' else pk)
-            files = sorted(glob.glob(os.path.join(hdir, '*.go')))
+            files = [f for f in sorted(glob.glob(os.path.join(hdir, '*.go'))) if os.path.basename(f) not in exclude]
             if extra_harness and pk in extra_harness:
                 files += extra_harness[pk]
             ents = []
@@ -447,12 +447,13 @@ class Check:
         self.builds = []
         self.stubs = stubs
         self.max_unwind = max_unwind
-        self.use_build(pkgs, bodies=bodies, extra_overlay=extra_overlay)
+        if pkgs is not None:
+            self.use_build(pkgs, bodies=bodies, extra_overlay=extra_overlay)
 
-    def use_build(self, pkgs, bodies='', extra_overlay=None):
+    def use_build(self, pkgs, bodies='', extra_overlay=None, exclude=(), optional=False):
         """(re)build the IR for another set of packages / overlay; later run() calls use it (a check may span several builds)"""
         wd = os.path.join(self.workdir, 'b%d' % len(self.builds))
-        self.build = Build(wd, pkgs, stubs=self.stubs, extra_overlay=extra_overlay)
+        self.build = Build(wd, pkgs, stubs=self.stubs, extra_overlay=extra_overlay, exclude=exclude)
         self.builds.append(self.build)
         self.pkgs = pkgs
         self.build_failed = None
@@ -460,6 +461,9 @@ class Check:
             self.prog = self.build.export(bodies)
             self.world = BaseWorld(self.prog, max_unwind=self.max_unwind)
         except (Inconclusive, Unsupported, UnwindError, NeedWidth) as e:
+            if optional:
+                self.build_failed = str(e)
+                return False
             if len(self.builds) == 1:
                 self.fail_inconclusive(str(e))
             # a later build of a multi-build check failed: keep what the earlier builds found, report the rest inconclusive
